@@ -48,7 +48,7 @@ pub fn property() -> Property {
             ("total_and_return", "tr:checked:total-on-width-boundary", 0.03),
             ("percentage", "pct:checked:total-on-width-boundary", 0.002),
             ("return_and_total", "rt:order=balanced-after-helper", 0.02),
-            ("return_and_total", "rt:order=balanced-before-helper", 0.015),
+            ("return_and_total", "rt:order=balanced-before-helper", 0.01),
             ("total_and_return", "tr:order=balanced-after-helper", 0.03),
             ("total_and_return", "tr:order=balanced-before-helper", 0.02),
             ("total_and_return", "tr:checked:fields-in-place-before-helper", 0.05),
@@ -487,7 +487,37 @@ fn gen_return(s: &Scn, c: &mut Tape, k_assets: usize, k_coin: usize) -> RetSpec 
                 "foreign-added"
             }
         }
-        _ => "equal",
+        _ => {
+            // an asset the inputs lack under a policy they DO hold, its name sorting before / after a held name
+            // (a containment test that compares the bundles of a policy as ordered maps is fooled by the first kind)
+            if let Some(id) = base.keys().nth(c.choose(base.len().max(1))).cloned() {
+                let (policy, name) = id.clone();
+                let candidates: Vec<Vec<u8>> = vec![Vec::new(), vec![0u8], name[..name.len().saturating_sub(1)].to_vec(), [name.clone(), b"z".to_vec()].concat().into_iter().take(32).collect(), vec![0xffu8; 32]];
+                let start = c.choose(candidates.len());
+                let mut added = false;
+                for k in 0..candidates.len() {
+                    let n = candidates[(start + k) % candidates.len()].clone();
+                    if !base.contains_key(&(policy.clone(), n.clone())) {
+                        assets.insert((policy.clone(), n), 1 + c.range_u64(0, 1000));
+                        added = true;
+                        break;
+                    }
+                }
+                if added && c.bool() {
+                    // ... and more of the held tokens of that policy as well
+                    let held: Vec<AssetId> = base.keys().filter(|k| k.0 == policy).cloned().collect();
+                    for h in held {
+                        let q = base[&h];
+                        if q < u64::MAX {
+                            assets.insert(h, q + 1);
+                        }
+                    }
+                }
+                if added { "sibling-name-added" } else { "equal" }
+            } else {
+                "equal"
+            }
+        }
     };
     let addr = key_addr(c.choose(4) as u8, c.choose(3));
     let with_datum = c.chance(24);
